@@ -185,6 +185,20 @@ pub fn run_case(c: &WCase) -> Outcome {
                 return;
             }
             out.count("explicit_disconnects", 1);
+            // "disconnects a remote player and all other remote players with the same address"
+            let behind: Vec<usize> = s.peers[1].clone();
+            if let Some(h) = behind.iter().find(|h| !surv.fin.cs[**h].0) {
+                out.violate(v("disconnect_player did not drop every player behind the address", format!("player {h} of address {dead_addr} is still connected after disconnect_player({}); connection status {:?}", behind[0], surv.fin.cs), surv.addr, w.end_t));
+                return;
+            }
+            // ... and the caller keeps advancing on its own
+            if surv.reached_target_at.is_none() {
+                let late = w.frames_between(0, w.end_t.saturating_sub(2500 * MS), w.end_t);
+                if late < 10 {
+                    out.violate(v("the session does not keep advancing after disconnect_player", format!("frame {} of {}, {late} frames in the last 2.5 s, connection status {:?}", surv.game.frame(), s.frames, surv.fin.cs), surv.addr, w.end_t));
+                    return;
+                }
+            }
         }
         for ni in 0..w.nodes.len() {
             if !w.nodes[ni].is_spec && w.nodes[ni].alive {
